@@ -239,6 +239,30 @@ def t_async():
             fact("T-TG:body-cancellation-is-re-raised", False)
         except asyncio.CancelledError as got_c:
             fact("T-TG:the-bodys-own-CancelledError-object-is-re-raised", got_c is body)
+        # external cancellation during the exit wait while a member fails in its cleanup: the group of member
+        # errors is raised, not CancelledError, and the request stays counted
+        async def failing_cleanup():
+            try:
+                await asyncio.sleep(10)
+            finally:
+                raise RuntimeError("cleanup")
+        seen = {}
+
+        async def owner():
+            try:
+                async with asyncio.TaskGroup() as tg4:
+                    tg4.create_task(failing_cleanup())
+                    await asyncio.sleep(0)
+            except BaseException as e:  # noqa
+                seen["exc"], seen["cancelling"] = e, asyncio.current_task().cancelling()
+        ot4 = asyncio.ensure_future(owner())
+        for _ in range(3):
+            await asyncio.sleep(0)
+        ot4.cancel()
+        await ot4
+        fact("T-TG:cancel-during-the-exit-wait-with-a-failing-member-raises-the-error-group-and-keeps-the-request-pending",
+             isinstance(seen.get("exc"), BaseExceptionGroup) and not isinstance(seen.get("exc"), asyncio.CancelledError)
+             and seen.get("cancelling") == 1)
         # executor
         tid = []
         boom = ValueError("b")
